@@ -4,7 +4,7 @@ import time
 
 from pyvc import verify
 from bounded import gen
-from .common import ctx, std
+from .common import ctx, std, history_samples
 
 QUICK = ["gen:flat:1:0", "gen:flat:2:0", "gen:flat:2:1", "gen:paths-pkg:1:0", "gen:paths-repo:1:1", "gen:paths-pkg:2:0", "gen:paths-repo:2:1"]
 
@@ -120,6 +120,7 @@ def check(run):
         seed, what = fails[0]
         run.violation("bounded:general.mirror", "[general] mirrors [release]/[tree]/[variant-*]", "seed %d: %s" % (seed, what),
                       GEN_SCRIPT % {"seed": seed})
+    history_samples(run, c, [k for k in sorted(c.contracts) if k.startswith("gen:")])
     run.assume("A2 (ConfigParser set/get/write), A5 (str(int(x)))")
     run.note("proved for trees with 1 or 2 top-level variants and one extra platform (symbolic names, paths, arch, timestamp): bounded in the "
              "NUMBER of variants/platforms, unbounded in every value; more variants, float timestamps: bounded stand-in")
